@@ -80,7 +80,7 @@ func (m *hgModel) expire() {
 
 func (m *hgModel) process(id string, flush bool, tag string) {
 	e := &eventlogger.Event{Type: "gated", CreatedAt: time.Unix(0, int64(nondetInt())), Payload: &hgPayload{id: id, flush: flush}}
-	out, err := m.w.Process(gCtx(), e)
+	out, err := m.w.Process(gMaybeDoneCtx(), e)
 	verifAssert(err == nil, tag+".process-succeeds")
 	m.expire()
 	idx := -1
